@@ -254,6 +254,9 @@ class CodeGenerator(abc.ABC):
             # inside an expression. A boolean is not a number in every target: with numpy
             # True + True is True and True - True raises
             rhs = sympy.Piecewise((1, rhs), (0, True))
+        elif isinstance(rhs, sympy.logic.boolalg.BooleanAtom):
+            # A relation that sympy could decide, e.g. Gt(x, x)
+            rhs = sympy.Integer(1) if rhs else sympy.Integer(0)
         if use_variable_prefix:
             return f"{self.variable_prefix}{self.printer.doprint(Assignment(lhs, rhs))}"
         return self.printer.doprint(Assignment(lhs, rhs))
